@@ -550,6 +550,11 @@ func genAct(rng *rand.Rand, hostile bool) act {
 	case 0, 1, 2, 3, 4:
 		a.Code = hostileCodes[rng.Intn(len(hostileCodes))]
 		a.Msg = pick(rng, msgClassNames)
+		if rng.Intn(4) == 0 {
+			// lengths around the limits of close frames and header lines
+			a.MsgLen = []int{1, 120, 121, 122, 123, 124, 125, 126, 127, 128, 129, 255, 256, 4096, 65535, 65536}[rng.Intn(16)]
+			a.MsgMB = rng.Intn(5)
+		}
 		if rng.Intn(3) == 0 {
 			a.Det = 1 + rng.Intn(3)
 		}
@@ -1138,6 +1143,11 @@ func init() {
 
 // genCase builds one case for a target.
 func genCase(rng *rand.Rand, t *target, entries []string) *Case {
+	return genCaseN(rng, t, entries, -1)
+}
+
+// genCaseN is genCase with a fixed number of mutations (nmut >= 0).
+func genCaseN(rng *rand.Rand, t *target, entries []string, nmut int) *Case {
 	ep := t.eps[rng.Intn(len(t.eps))]
 	g := &genCtx{t: t, ep: ep}
 	entry := pick(rng, entries)
@@ -1176,6 +1186,9 @@ func genCase(rng *rand.Rand, t *target, entries []string) *Case {
 	}
 	c.EP = ep.Full
 	nm := []int{0, 1, 1, 1, 1, 1, 2, 2, 2, 3}[rng.Intn(10)]
+	if nmut >= 0 {
+		nm = nmut
+	}
 	hostile := nm > 0 || rng.Intn(2) == 0
 	pool := mutByEntry[mkey]
 	for i := 0; i < nm; i++ {
